@@ -3,6 +3,7 @@ package main
 import (
 	"fmt"
 	"go/types"
+	"os"
 	"sort"
 
 	"golang.org/x/tools/go/ssa"
@@ -27,11 +28,11 @@ func (e *Exec) deepEq(a, b Value, depth int) *Term {
 		case IfaceV:
 			return BoolT(y.V == nil)
 		}
-		return False
+		return e.mismatch(1, a, b)
 	case *Term:
 		y, ok := b.(*Term)
 		if !ok {
-			return False
+			return e.mismatch(2, a, b)
 		}
 		return e.eqValue(x, y)
 	case Ptr:
@@ -40,7 +41,7 @@ func (e *Exec) deepEq(a, b Value, depth int) *Term {
 			if b == nil {
 				return BoolT(x.O == nil)
 			}
-			return False
+			return e.mismatch(3, a, b)
 		}
 		if x.O == nil || y.O == nil {
 			return BoolT(x.O == nil && y.O == nil)
@@ -49,7 +50,7 @@ func (e *Exec) deepEq(a, b Value, depth int) *Term {
 	case *StructV:
 		y, ok := b.(*StructV)
 		if !ok || len(x.F) != len(y.F) {
-			return False
+			return e.mismatch(4, a, b)
 		}
 		var cs []*Term
 		for i := range x.F {
@@ -59,7 +60,7 @@ func (e *Exec) deepEq(a, b Value, depth int) *Term {
 	case *ArrayV:
 		y, ok := b.(*ArrayV)
 		if !ok || len(x.E) != len(y.E) {
-			return False
+			return e.mismatch(5, a, b)
 		}
 		var cs []*Term
 		for i := range x.E {
@@ -69,7 +70,7 @@ func (e *Exec) deepEq(a, b Value, depth int) *Term {
 	case TupleV:
 		y, ok := b.(TupleV)
 		if !ok || len(x) != len(y) {
-			return False
+			return e.mismatch(6, a, b)
 		}
 		var cs []*Term
 		for i := range x {
@@ -82,25 +83,25 @@ func (e *Exec) deepEq(a, b Value, depth int) *Term {
 			if b == nil {
 				return BoolT(x.V == nil)
 			}
-			return False
+			return e.mismatch(7, a, b)
 		}
 		if x.V == nil || y.V == nil {
 			return BoolT(x.V == nil && y.V == nil)
 		}
 		if x.T != nil && y.T != nil && !types.Identical(x.T, y.T) {
-			return False
+			return e.mismatch(8, a, b)
 		}
 		return e.deepEq(x.V, y.V, depth+1)
 	case *SliceV:
 		y, ok := b.(*SliceV)
 		if !ok {
-			return False
+			return e.mismatch(9, a, b)
 		}
 		if x.Op != nil || y.Op != nil {
 			if e.isByteSliceOrOpaque(x) && e.isByteSliceOrOpaque(y) {
 				return Eq(e.bytesTerm(x), e.bytesTerm(y))
 			}
-			return False
+			return e.mismatch(10, a, b)
 		}
 		lx, ly := x.Len, y.Len
 		if x.Nil {
@@ -110,7 +111,7 @@ func (e *Exec) deepEq(a, b Value, depth int) *Term {
 			ly = 0
 		}
 		if lx != ly {
-			return False
+			return e.mismatch(11, a, b)
 		}
 		if lx == 0 {
 			return True
@@ -124,7 +125,7 @@ func (e *Exec) deepEq(a, b Value, depth int) *Term {
 	case *MapV:
 		y, ok := b.(*MapV)
 		if !ok {
-			return False
+			return e.mismatch(12, a, b)
 		}
 		if x.M == nil || y.M == nil {
 			return BoolT((x.M == nil || len(x.M.K) == 0) && (y.M == nil || len(y.M.K) == 0))
@@ -133,7 +134,7 @@ func (e *Exec) deepEq(a, b Value, depth int) *Term {
 			return True
 		}
 		if len(x.M.K) != len(y.M.K) {
-			return False // association lists hold distinct keys
+			return e.mismatch(13, a, b) // association lists hold distinct keys
 		}
 		var cs []*Term
 		for i := range x.M.K {
@@ -147,13 +148,13 @@ func (e *Exec) deepEq(a, b Value, depth int) *Term {
 	case *ErrV:
 		y, ok := b.(*ErrV)
 		if !ok {
-			return False
+			return e.mismatch(14, a, b)
 		}
 		if x == y {
 			return True
 		}
 		if x.Root != y.Root || x.Code != y.Code {
-			return False
+			return e.mismatch(15, a, b)
 		}
 		if x.Msg == nil || y.Msg == nil {
 			return BoolT(x.Msg == nil && y.Msg == nil)
@@ -164,13 +165,13 @@ func (e *Exec) deepEq(a, b Value, depth int) *Term {
 	case *ModelObj:
 		y, ok := b.(*ModelObj)
 		if !ok {
-			return False
+			return e.mismatch(16, a, b)
 		}
 		if x == y {
 			return True
 		}
 		if x.Kind != y.Kind {
-			return False
+			return e.mismatch(17, a, b)
 		}
 		keys := map[string]bool{}
 		for k := range x.F {
@@ -189,7 +190,7 @@ func (e *Exec) deepEq(a, b Value, depth int) *Term {
 			xv, ok1 := x.F[k]
 			yv, ok2 := y.F[k]
 			if !ok1 || !ok2 {
-				return False
+				return e.mismatch(18, a, b)
 			}
 			cs = append(cs, e.deepEq(xv, yv, depth+1))
 		}
@@ -208,12 +209,22 @@ func (e *Exec) deepEq(a, b Value, depth int) *Term {
 	return nil
 }
 
+func (e *Exec) mismatch(site int, a, b Value) *Term {
+	if e.W.trace {
+		fmt.Fprintf(os.Stderr, "deepEq mismatch #%d: %s / %s\n", site, describe(a), describe(b))
+	}
+	return False
+}
+
 func (e *Exec) isByteSliceOrOpaque(s *SliceV) bool {
 	return s.Op != nil || s.Nil || s.Len == 0 || e.isByteSlice(s)
 }
 
 func sameEntry(e *Exec, a, b *Entry) *Term {
 	if a.Present != b.Present {
+		if e.W.trace {
+			fmt.Fprintf(os.Stderr, "sameEntry: presence differs at key %v\n", a.Key)
+		}
 		return False
 	}
 	if !a.Present {
@@ -263,8 +274,17 @@ func (e *Exec) sameAt(en *Entry, other *Store, init []*Entry) *Term {
 		}
 		// neither touched by the other side nor ever read from the pre-state: written blind on this side only
 		rest = Or(append(ialts, And(append(inone, False)...))...)
+
 	}
-	return Or(append(alts, And(append(none, rest)...))...)
+	res := Or(append(alts, And(append(none, rest)...))...)
+	if e.W.trace && res.IsFalse() {
+		ks := ""
+		for _, k := range en.Key {
+			ks += k.SMT() + " "
+		}
+		fmt.Fprintf(os.Stderr, "sameAt: definitely different at key %s(present=%v): other side has %d entries, closed=%v\n", ks, en.Present, len(entries), closed)
+	}
+	return res
 }
 
 func (e *Exec) sameState(a, b *State) *Term {
@@ -289,12 +309,20 @@ func (e *Exec) sameState(a, b *State) *Term {
 		}
 		if sa != nil {
 			for _, en := range sa.Entries {
-				cs = append(cs, e.sameAt(en, sb, init))
+				r := e.sameAt(en, sb, init)
+				if e.W.trace && r.IsFalse() {
+					fmt.Fprintf(os.Stderr, "sameState: store %s differs (first execution's entry)\n", n)
+				}
+				cs = append(cs, r)
 			}
 		}
 		if sb != nil {
 			for _, en := range sb.Entries {
-				cs = append(cs, e.sameAt(en, sa, init))
+				r := e.sameAt(en, sa, init)
+				if e.W.trace && r.IsFalse() {
+					fmt.Fprintf(os.Stderr, "sameState: store %s differs (second execution's entry)\n", n)
+				}
+				cs = append(cs, r)
 			}
 		}
 	}
@@ -356,6 +384,10 @@ func init() {
 		}
 		return []Value{And(cs...)}
 	}
+	intrinsics["verifEnvBegin"] = func(e *Exec, fn *ssa.Function, a []Value) []Value { e.envBegin(); return nil }
+	intrinsics["verifEnvReplay"] = func(e *Exec, fn *ssa.Function, a []Value) []Value { e.envReplay(); return nil }
+	intrinsics["verifRepeat"] = func(e *Exec, fn *ssa.Function, a []Value) []Value { return []Value{BVU(1, 64)} }
+	intrinsics["verifEnvEnd"] = func(e *Exec, fn *ssa.Function, a []Value) []Value { e.envEnd(); return nil }
 	// verifDeepEq(x, y any): structural equality of two observations (responses, errors, update lists)
 	intrinsics["verifDeepEq"] = func(e *Exec, fn *ssa.Function, a []Value) []Value {
 		return []Value{e.deepEq(a[0], a[1], 0)}
